@@ -17,3 +17,20 @@ Print Assumptions iup1_between.
 Theorem iup1_symmetric : forall x x1 d1 x2 d2, iup1 x x1 d1 x2 d2 == iup1 x x2 d2 x1 d1.
 Proof. exact Proofs.iup1_symmetric. Qed.
 Print Assumptions iup1_symmetric.
+
+(* WHOLE CONTOURS (iup_contour): the result has one delta per point; an explicit delta is kept; a point without one gets the value
+   inferred (iup1, i.e. the specified rule above) from the nearest explicit points before and after it going around the contour --
+   no explicit point lies strictly between, wrapping past the contour's end included *)
+Theorem iup_contour_spec : forall deltas coords i, length coords = length deltas -> (i < length deltas)%nat ->
+  let R := iup_contour deltas coords in
+  length R = length deltas /\
+  (forall d, nth i deltas None = Some d -> nth i R (0, 0) = d) /\
+  (nth i deltas None = None -> (exists j, explicit deltas j) ->
+     exists p q, explicit deltas p /\ explicit deltas q /\ (p < length deltas)%nat /\ (q < length deltas)%nat /\
+       pt_eq (nth i R (0, 0)) (seg_at deltas coords i p q) /\
+       ((p < i /\ forall k, p < k < i -> ~ explicit deltas k) \/
+        (i < p /\ (forall k, k < i -> ~ explicit deltas k) /\ (forall k, p < k < length deltas -> ~ explicit deltas k)))%nat /\
+       ((i < q /\ forall k, i < k < q -> ~ explicit deltas k) \/
+        (q < i /\ (forall k, i < k < length deltas -> ~ explicit deltas k) /\ (forall k, k < q -> ~ explicit deltas k)))%nat).
+Proof. exact Proofs.iup_contour_spec. Qed.
+Print Assumptions iup_contour_spec.
